@@ -46,6 +46,54 @@ theorem validChain_mirror (L : Int) (l : List Iv) : validChain (mirrorL L l) = v
   rw [Bool.eq_iff_iff, validChain_iff, validChain_iff]
   exact ⟨fun h => ⟨corr_WFl_of_mirror L l h.1, corr_SD_of_mirror L l h.2⟩, fun h => ⟨WFl_mirror L l h.1, SD_mirror L l h.2⟩⟩
 
+/-- `Spaced` (non-empty intervals, a gap of at least one position between neighbours) read from the other end -/
+theorem Spaced_append_singleton (l : List Iv) (x : Iv) :
+    Spaced (l ++ [x]) ↔ Spaced l ∧ x.1 ≤ x.2 ∧ (∀ y, l.getLast? = some y → y.2 + 1 < x.1) := by
+  induction l with
+  | nil => simp [Spaced]
+  | cons a t ih =>
+    cases t with
+    | nil =>
+      simp only [List.nil_append, List.cons_append, Spaced, List.getLast?_singleton, Option.some.injEq]
+      constructor
+      · rintro ⟨h1, h2, h3⟩; exact ⟨h1, h3, fun y hy => by subst hy; exact h2⟩
+      · rintro ⟨h1, h3, h2⟩; exact ⟨h1, h2 a rfl, h3⟩
+    | cons b t' =>
+      have e : (a :: b :: t') ++ [x] = a :: b :: (t' ++ [x]) := by simp
+      have hl : (a :: b :: t').getLast? = (b :: t').getLast? := by simp [List.getLast?_cons_cons]
+      rw [e]
+      simp only [Spaced, hl]
+      have ih' := ih
+      simp only [List.cons_append] at ih'
+      rw [ih']
+      constructor
+      · rintro ⟨h1, h2, h3, h4, h5⟩; exact ⟨⟨h1, h2, h3⟩, h4, h5⟩
+      · rintro ⟨⟨h1, h2, h3⟩, h4, h5⟩; exact ⟨h1, h2, h3, h4, h5⟩
+
+theorem Spaced_mirror (L : Int) (l : List Iv) (h : Spaced l) : Spaced (mirrorL L l) := by
+  induction l with
+  | nil => exact trivial
+  | cons a t ih =>
+    rw [mirrorL_cons, Spaced_append_singleton]
+    refine ⟨ih (Spaced_tail h), by have := Spaced_head h; simp; omega, ?_⟩
+    intro y hy
+    rw [mirrorL_getLast?] at hy
+    cases t with
+    | nil => simp at hy
+    | cons b t' =>
+      simp only [List.head?_cons, Option.map_some, Option.some.injEq] at hy
+      subst hy
+      obtain ⟨_, h2, _⟩ := h
+      simp; omega
+
+theorem validIntronChain_mirror (L : Int) (l : List Iv) : validIntronChain (mirrorL L l) = validIntronChain l := by
+  rw [Bool.eq_iff_iff, validIntronChain_iff, validIntronChain_iff]
+  constructor
+  · intro h
+    have := Spaced_mirror L _ h
+    rwa [mirrorL_mirrorL] at this
+  · exact Spaced_mirror L l
+
 /-! ### fuzzy junction correction -/
 
 theorem fuzzySite_mirror (L own ref : Int) (e : Int × Int) :
@@ -197,14 +245,19 @@ structure EventInRange (n m : Nat) (e : MEvent) : Prop where
   single : (e.etype = MatchEventSubtype.terminal_exon_misalignment_left ∨
             e.etype = MatchEventSubtype.terminal_exon_misalignment_right) → e.iso.1 = e.iso.2
 
+/-- well-formed retained micro introns: ANY read exon `0 … nRead` (first and last included), any number of
+    bindings per exon, each naming an isoform intron by an in-range index -/
+def MicroWF (nRead nIso : Nat) (mm : List (Int × Int)) : Prop :=
+  ∀ q ∈ mm, 0 ≤ q.1 ∧ q.1 ≤ nRead ∧ 0 ≤ q.2 ∧ q.2 < nIso
+
 /-- well-formed event map: distinct keys; an event is keyed by the first intron of its in-range, non-empty read
-    range; ranges are pairwise disjoint; micro-intron insertions happen strictly inside the intron list and name a
-    single isoform intron; at most one event moves the left end of the region and at most one the right end -/
+    range; ranges are pairwise disjoint; at most one event moves the left end of the region and at most one the
+    right end (the micro-intron insertions have their own map: `MicroWF`) -/
 def EmapWF (nRead nIso : Nat) (emap : List (Int × MEvent)) : Prop :=
   (emap.map (·.1)).Nodup ∧
   (∀ q ∈ emap, 0 ≤ q.1 → q.2.read.1 = q.1 ∧ q.2.read.1 ≤ q.2.read.2 ∧ EventInRange nRead nIso q.2) ∧
   (∀ q ∈ emap, ∀ q' ∈ emap, 0 ≤ q.1 → q.1 < q'.1 → q.2.read.2 < q'.1) ∧
-  (∀ q ∈ emap, q.1 < 0 → -(nRead : Int) ≤ q.1 ∧ q.1 ≤ -2 ∧ 0 ≤ q.2.iso.1 ∧ q.2.iso.1 < nIso ∧ q.2.iso.1 = q.2.iso.2) ∧
+  (∀ q ∈ emap, 0 ≤ q.1) ∧
   -- the LAST event that moves an end of the region wins: at most one event per end
   (emap.filter (fun q => q.2.etype = MatchEventSubtype.fake_terminal_exon_left ∨
                          q.2.etype = MatchEventSubtype.terminal_exon_misalignment_left)).length ≤ 1 ∧
